@@ -43,3 +43,45 @@ reg("C10", level="proof", engine="E-TAB+E-SET", technique=TECH_TAB,
                 "must imply containment in the Boolean-algebra model.",
     level_text="Proof over a finite abstraction (see C07).", level_note="Trusted base as C07; |A| <= 3 quick, <= 4 thorough.",
     trusted_base=TB_COMMON, assumptions=["C04"])
+
+TECH_L0 = ("abstract interpretation of rustc MIR over integer / identifier-list tokens; complete enumeration of the "
+           "weak orderings of the atoms the function may read; entry-by-entry comparison with a reference table")
+
+reg("C04", level="proof", engine="E-TAB", technique=TECH_L0, design_ref="DESIGN.md §5 C04",
+    explanation="<Version as Ord>::cmp, partial_cmp, PartialEq::eq and Hash::hash are interpreted from MIR on every class "
+                "of (per-field order of the numeric components) x (emptiness / order of the prerelease lists) x (build "
+                "same / different) and compared with SemVer 2.0.0 §11; the derived impls of Identifier are interpreted on "
+                "all variant/order classes; the numeric classification closure of identifier() is tabulated.",
+    level_text="Proof over a finite abstraction: the functions are loop-free and read their inputs only through same-field "
+               "comparisons, emptiness/length-vs-0 and lexicographic list comparison (enforced by the interpreter), so the "
+               "enumerated worlds cover all inputs. Total-order laws follow from the table being the lexicographic product.",
+    level_note="Trusted: rustc MIR, the interpreter/models, std semantics of u64/String/Vec ordering and of derive(Ord), "
+               "the transcription of SemVer §11.",
+    trusted_base=TB_COMMON + ["std: u64, String and Vec<T: Ord> comparison, derive(PartialOrd, Ord) semantics",
+                              "lemma: a lexicographic product of total orders is a total order"],
+    assumptions=["sort/min/max of std are correct for a lawful total order"])
+
+reg("C16", level="proof", engine="E-TAB", technique=TECH_L0, design_ref="DESIGN.md §5 C16",
+    explanation="Version::diff is interpreted from MIR (with Version::cmp and is_prerelease as interpreted callees) on every "
+                "class of per-field orderings of (a.f, b.f, 0), prerelease-list valuations and build same/different, and "
+                "compared entry by entry with a transcription of node-semver 7.6.2 functions/diff.js; rows are paired for "
+                "symmetry; the Display arms of VersionDiff are interpreted and compared with npm's names.",
+    level_text="Proof over a finite abstraction: diff is loop-free and reads its inputs only through same-field comparisons, "
+               "comparisons with the literal 0 and emptiness/order of the prerelease lists (enforced by the interpreter).",
+    level_note="Trusted: rustc MIR, interpreter/models, the transcription of node-semver's diff().",
+    trusted_base=TB_COMMON + ["transcription of node-semver 7.6.2 functions/diff.js (engine/versions.py ref_diff)"],
+    assumptions=[])
+
+reg("C03", level="proof", engine="E-TAB", technique=TECH_L0, design_ref="DESIGN.md §5 C03",
+    explanation="BoundSet::satisfies is interpreted from MIR over the 9 bound shapes x every realisable valuation of the gate "
+                "atoms (order of the version against each bound, prerelease flags of version and bounds, per-field equality "
+                "of major/minor/patch) and compared with: within the bounds AND (release OR some bound is a prerelease of "
+                "the same tuple). Version comparisons are level-1 primitives (justified by C04); field reads are admitted "
+                "only as same-field equality tests and emptiness of the prerelease list.",
+    level_text="Proof over a finite abstraction of the single-interval gate. That the two surviving bounds of an alternative "
+               "suffice (npm looks at every comparator) rests on the convexity lemma (DESIGN §5 C03) plus C02/C07; the -0 "
+               "upper bounds are part of the C01 desugaring table.",
+    level_note="Trusted: rustc MIR, interpreter/models, C04 for Version ordering, the hand lemma on convexity of the "
+               "prereleases of one tuple.",
+    trusted_base=TB_COMMON + ["lemma: the prereleases of one major.minor.patch form a convex segment of the order"],
+    assumptions=["C04", "C02 (an alternative is the intersection of its comparators)", "C07 provenance of surviving bounds"])
